@@ -241,8 +241,11 @@ func (k *kase) bashUnreliable() string {
 		if k.IFSSet {
 			env = expand.ListEnviron("IFS=" + k.ifs)
 		}
-		all := expand.ReadFields(&expand.Config{Env: env}, line, -1, false)
-		some := expand.ReadFields(&expand.Config{Env: env}, line, k.K, false)
+		var all, some []string
+		hx.Try(func() {
+			all = expand.ReadFields(&expand.Config{Env: env}, line, -1, false)
+			some = expand.ReadFields(&expand.Config{Env: env}, line, k.K, false)
+		})
 		if len(all) > k.K && len(some) == k.K && some[k.K-1] == "" {
 			return "rest_is_escaped_blanks"
 		}
